@@ -34,6 +34,30 @@ MUST_HOLD_TIMEOUT_MS = 1000     # entailment probes (piece sharing, short-circui
 SITE_TIMEOUT_MS = 500
 
 
+def _conjuncts(t):
+    if z3.is_and(t):
+        out = []
+        for c in t.children():
+            out.extend(_conjuncts(c))
+        return out
+    return [t]
+
+
+def _has_quantifier(t):
+    seen = set()
+    todo = [t]
+    while todo:
+        x = todo.pop()
+        i = x.get_id()
+        if i in seen:
+            continue
+        seen.add(i)
+        if z3.is_quantifier(x):
+            return True
+        todo.extend(x.children())
+    return False
+
+
 class PathState:
     def __init__(self, prefix, stats):
         self.prefix = list(prefix)
@@ -54,6 +78,8 @@ class PathState:
         self.used_contracts = set()
         self.used_models = set()
         self.unknown_feasibility = 0
+        self.side_conditions = []  # stack: in-range conditions collected inside quantifier bodies
+        self.fresh_log = []        # every fresh constant, in creation order (for skolemisation in quantifiers)
         self.no_fork = 0           # >0 inside quantifier bodies: a real fork is not allowed
         self.known = {}            # z3 term id -> list of (frozenset(scope ids), bool): entailed truth values
 
@@ -64,13 +90,19 @@ class PathState:
         return base if n == 0 else '%s!%d' % (base, n)
 
     def fresh_int(self, base):
-        return z3.Int(self.fresh_name(base))
+        c = z3.Int(self.fresh_name(base))
+        self.fresh_log.append(c)
+        return c
 
     def fresh_bool(self, base):
-        return z3.Bool(self.fresh_name(base))
+        c = z3.Bool(self.fresh_name(base))
+        self.fresh_log.append(c)
+        return c
 
     def fresh_str(self, base):
-        return z3.String(self.fresh_name(base))
+        c = z3.String(self.fresh_name(base))
+        self.fresh_log.append(c)
+        return c
 
     # ---- assumptions ------------------------------------------------------------
     def _scoped(self, t):
@@ -93,7 +125,12 @@ class PathState:
 
     def _add(self, t):
         self.pc.append(t)
-        self.solver.add(t)
+        # The feasibility solver only sees quantifier-free facts: satisfiability of quantified
+        # (string) formulas is where solvers get lost; dropping facts there only over-approximates
+        # the set of explored paths, the obligations are always proved from the full `pc`.
+        for c in _conjuncts(t):
+            if not _has_quantifier(c):
+                self.solver.add(c)
 
     def check(self, *extra, timeout_ms=None):
         """sat / unsat / unknown of pc + scopes + extra."""
@@ -103,7 +140,7 @@ class PathState:
         if timeout_ms is not None:
             self.solver.set('timeout', timeout_ms)
         try:
-            r = self.solver.check(*(list(self.scopes) + list(extra)))
+            r = self.solver.check(*([x for x in self.scopes if not _has_quantifier(x)] + list(extra)))
         finally:
             if timeout_ms is not None:
                 self.solver.set('timeout', FEAS_TIMEOUT_MS)
@@ -165,7 +202,7 @@ class PathState:
                     self._record_known(t, can_t)
             if can_t and can_f:
                 if self.no_fork:
-                    raise Unsupported('case split inside a quantifier body')
+                    raise Unsupported('case split inside a quantifier body on %s' % str(t)[:300])
                 self.pending.append(self.decisions + [False])
                 d = True
             elif can_t:
@@ -211,6 +248,8 @@ class PathState:
         k = self._lookup_known(t)
         if k is not None:
             r = 'T' if k else 'N'
+        elif _has_quantifier(t):
+            r = 'U'
         elif self.must_hold(t, SITE_TIMEOUT_MS):
             r = 'T'
             self._record_known(t, True)
